@@ -196,6 +196,38 @@ pub fn valid_items(seed: u64, big: bool) -> Vec<Item> {
         }
         v.push(mk("wraps-4096-window+size", 3, 0, 2, 4096, wrap.clone(), false, true));
         v.push(mk("wraps-4096-window+marker", 3, 0, 2, 1, wrap, true, false));
+        // a non-overlapping match that ends exactly at the end of the 4096-byte window
+        {
+            let mut p = lits(40, seed);
+            let mut produced = 40usize;
+            let mut k = 0u32;
+            let boundary = 4096usize;
+            while produced + 200 + 280 < boundary {
+                p.push(Sym::M(1 + (k * 13) % 39, 273));
+                produced += 273;
+                if k % 4 == 3 {
+                    p.push(Sym::L((k * 5 + 1) as u8));
+                    produced += 1;
+                }
+                k += 1;
+            }
+            if produced + 200 + 2 <= boundary {
+                let l = (boundary - 200 - produced).min(273);
+                if l >= 2 {
+                    p.push(Sym::M(7, l as u32));
+                    produced += l;
+                }
+            }
+            while produced + 200 < boundary {
+                p.push(Sym::L((produced * 3 + 7) as u8));
+                produced += 1;
+            }
+            p.push(Sym::M(300, 200)); // source [boundary-500, boundary-300), destination [boundary-200, boundary)
+            // what follows reads back across the wrap point at short and long distances
+            p.extend([Sym::L(0x77), Sym::M(1, 5), Sym::L(0x78), Sym::M(2, 9), Sym::S, Sym::M(4000, 30), Sym::M(15, 40), Sym::L(0x79), Sym::M(4096, 20)]);
+            v.push(mk("match-ends-at-window-end+size", 3, 0, 2, 4096, p.clone(), false, true));
+            v.push(mk("match-ends-at-window-end+marker", 3, 0, 2, 4096, p, true, false));
+        }
         let rnd: Vec<Sym> = (0..260u32).map(|i| Sym::L((i.wrapping_mul(2654435761) >> 11) as u8)).collect();
         v.push(mk("incompressible-260+size", 3, 0, 2, 4096, rnd.clone(), false, true));
         v.push(mk("incompressible-260+marker lc4", 4, 0, 0, 4096, rnd, true, false));
